@@ -12,6 +12,7 @@ import KVerif.Drv.C07
 import KVerif.Drv.C01
 import KVerif.Drv.C12
 import KVerif.Drv.C16
+import KVerif.Drv.C20 -- C20
 open KVerif.Drv
 
 /-- kvdrv <prop>: one case line in, one `M <model> ## S <spec>` line out. -/
@@ -36,6 +37,7 @@ def dispatch (prop : String) : Option (String → String × String) :=
   | "LALL" => some (Lay.run "LAY")
   | "C12" => some C12.run
   | "C16" => some C16.run
+  | "C20" => some C20.run -- C20
   | _ => none
 
 partial def loop (h : IO.FS.Stream) (out : IO.FS.Stream) (f : String → String × String) : IO Unit := do
